@@ -229,7 +229,7 @@ def run():
 
     for ts, buf in pcap_reader:
         if ts == -1:
-            keylog.extend(keylog_reader.get_keys_from_string(buf.decode('ascii')))  # adds secrets from decryption secret block to keylog
+            keylog.extend(keylog_reader.get_keys_from_string(buf.decode('utf-8', errors='replace')))  # adds secrets from decryption secret block to keylog
             _verif.emit("block", kind="dsb", nkeys=len(keylog))
             continue
 
